@@ -123,7 +123,7 @@ def canon(rows):
 
 
 def norm_rows(rows, mode):
-  if mode != 'sort_json_lists':
+  if mode not in ('sort_json_lists', 'json_compact'):
     return rows
   import json
   out = []
@@ -132,7 +132,8 @@ def norm_rows(rows, mode):
     for v in r:
       if isinstance(v, str) and v.startswith('['):
         try:
-          v = json.dumps(sorted(json.loads(v), key=repr), separators=(',', ':'))
+          l_ = json.loads(v)
+          v = json.dumps(sorted(l_, key=repr) if mode == 'sort_json_lists' else l_, separators=(',', ':'))
         except ValueError:
           pass
       rr.append(v)
@@ -167,13 +168,21 @@ def run_schema(schema, tier, seed=0):
       from . import lgen
       dbf = lgen.DB_FILTERS[schema['db_filter']]
     attaches = any('ATTACH' in st for (pre_, _m) in compiled.values() for st in pre_)
-    for db, exhaustive in databases(arities, domain, max_rows, schema.get('domains'), cap, seed):
+    source = ([(d, True) for d in schema['dbs']] if schema.get('dbs') else
+              databases(arities, domain, max_rows, schema.get('domains'), cap, seed))
+    for db, exhaustive in source:
       res['exhaustive'] = res['exhaustive'] and exhaustive
       if dbf is not None and not dbf(db):
         continue
-      if not attaches:
-        load_tables(con, db, arities, schema.get('colnames'))
-      for p, spec in schema['spec'].items():
+      orders = [db]
+      if schema.get('row_orders'):
+        t0 = sorted(db)[0]
+        orders = [dict(db, **{t0: list(pm)}) for pm in itertools.permutations(db[t0])]
+      for db_o in orders:
+       db = db_o
+       if not attaches:
+        load_tables(con, db_o, arities, schema.get('colnames'))
+       for p, spec in schema['spec'].items():
         pre, main = compiled[p]
         if attaches:
           # the preamble attaches a database: one fresh connection per run, as `logica.py run` does
